@@ -23,7 +23,7 @@ ASSUMPTIONS = ["candidates are registered as data (OperatorImpl with ParamPatter
                "g++-12 -O1 build of the working tree with harness-side shims"]
 FLOORS = {"resolutions": {"quick": 4000, "thorough": 100000}, "families_with_competition": {"quick": 400, "thorough": 8000},
           "ambiguity_errors": {"quick": 20, "thorough": 500}, "no_match_errors": {"quick": 100, "thorough": 3000},
-          "orders_compared": {"quick": 2500, "thorough": 60000}}
+          "orders_compared": {"quick": 2500, "thorough": 60000}, "mirrored_signature_checks": {"quick": 200, "thorough": 400}}
 
 POOL = {
     "ci": "TS(int)->TS(int)",
@@ -48,6 +48,11 @@ POOL = {
     "gtu": "#S,#U->#S",
     "gis": "TS(int),#S->#S",
     "gsi": "#S,TS(int)->#S",
+    "pe": "#S,TSL(#S,%N)->#S",
+    "pr": "TSL(#S,%N),#S->#S",
+    "psl": "TS($T),TSL(#U,%N)->TS($T)",
+    "pls": "TSL(#U,%N),TS($T)->TS($T)",
+    "pdd": "TS($K),TSD($K,#V)->#V",
     "ci2": "TS(int)->TS(int)",
     "gs2": "TS($T)->TS($T)",
     "gtt2": "#S,#S->#S",
@@ -274,6 +279,17 @@ def strictly_more_specific(b, a):
     return fwd and not back
 
 
+def split_top(text):
+    """split 'A,B' at the top-level comma"""
+    depth = 0
+    for k, ch in enumerate(text):
+        depth += ch == "("
+        depth -= ch == ")"
+        if ch == "," and depth == 0:
+            return text[:k], text[k + 1:]
+    raise ValueError(text)
+
+
 def run_lines(exe, lines, tag):
     d = os.path.join(SCRATCH, tag)
     os.makedirs(d, exist_ok=True)
@@ -344,6 +360,22 @@ def main(tier, seed, replay):
             exp = {k: (render(v) if isinstance(v, tuple) and v[0] != "n" else str(v[1])) for k, v in env.items()}
             if got != exp:
                 V.append(((l,), a, f"candidate {l} on {a}: bindings {got} != expected {exp}"))
+    # 1b) specificity does not depend on the order in which the parameters are declared: the mirrored signature applied to the
+    #     mirrored arguments must match iff the original does, with the same rank
+    two = [(l, a) for (l, a) in singles if len(a) == 2]
+    mlines = []
+    for l, a in two:
+        ins, out = POOL[l].split("->")
+        p0, p1 = split_top(ins)
+        mlines.append(f"{l}={p1},{p0}->{out} | {a[1]},{a[0]}")
+    mres = run_lines(exe, mlines, f"C19.{tier}.{seed}.m") if mlines else []
+    counters["resolutions"] += len(mlines)
+    counters["mirrored_signature_checks"] = len(mlines)
+    for (l, a), r in zip(two, mres):
+        o = single[(l, a)]
+        if (o[0], o[2] if o[0] == "ok" else None) != (r[0], r[2] if r[0] == "ok" else None):
+            V.append(((l,), a, f"candidate {l} = {POOL[l]} on {a} gives {o[:3]} but with its two parameters (and the arguments) declared in "
+                                f"the opposite order it gives {r[:3]}: specificity depends on parameter declaration order"))
     # 2) families in several registration orders
     lines, meta = [], []
     for fam, a in fams:
